@@ -33,6 +33,10 @@ pub struct World {
     pub loc: String,
     pub clock_origin_s: i64,
     pub order: Vec<usize>,
+    /// host state left by an earlier build: 0 = clean output directory; 1 = another program was built into the same
+    /// output directory first; 2 = same, and the sources are older than what that build left behind
+    #[serde(default)]
+    pub pre_build: u8,
 }
 
 type Obs = BTreeMap<String, String>;
@@ -117,9 +121,17 @@ pub fn gen_program(seed: u64) -> Program {
     if multi {
         let nested = r.chance(1, 2);
         let nmods = r.range(2, 4);
+        let nmods = if nested && r.chance(1, 2) { nmods + 2 } else { nmods };
         for m in 0..nmods {
             let (path, import) = if nested && m % 2 == 1 {
-                (format!("pkg{m}/mod{m}.incn"), format!("from pkg{m}.mod{m} import helper{m}, Item{m}\n"))
+                // siblings share `shared_pkg/` (several entries in one directory's module list), some live deeper
+                match r.below(3) {
+                    0 => (format!("pkg{m}/mod{m}.incn"), format!("from pkg{m}.mod{m} import helper{m}, Item{m}\n")),
+                    1 => (format!("shared_pkg/mod{m}.incn"), format!("from shared_pkg.mod{m} import helper{m}, Item{m}\n")),
+                    _ => (format!("shared_pkg/inner/mod{m}.incn"), format!("from shared_pkg.inner.mod{m} import helper{m}, Item{m}\n")),
+                }
+            } else if nested && m % 2 == 0 && m > 0 {
+                (format!("shared_pkg/mod{m}.incn"), format!("import shared_pkg::mod{m}::helper{m}\nimport shared_pkg::mod{m}::Item{m}\n"))
             } else if r.chance(1, 2) {
                 (format!("mod{m}.incn"), format!("from mod{m} import helper{m}, Item{m}\n"))
             } else {
@@ -225,7 +237,9 @@ pub fn gen_world(r: &mut Rng, k: usize, nnodes: usize) -> World {
     }
     let mut order: Vec<usize> = (0..nnodes).collect();
     r.shuffle(&mut order);
-    World { hash_seed: r.next() | 1, env, loc, clock_origin_s: r.range(0, 4_000_000_000) as i64, order }
+    // world 0 is always the clean reference
+    let pre_build = if k == 0 { 0 } else { *r.pick(&[0u8, 0, 1, 2, 2]) };
+    World { hash_seed: r.next() | 1, env, loc, clock_origin_s: r.range(0, 4_000_000_000) as i64, order, pre_build }
 }
 
 // ------------------------------------------------------------------------------------------------ observation
@@ -245,6 +259,15 @@ fn set_process_env(fakebin: &Path, env: &[(String, String)]) {
     std::env::set_var("PATH", "/nonexistent-verif-bin");
     for (k, v) in env {
         std::env::set_var(k, v);
+    }
+}
+
+fn set_mtime(p: &Path, secs: i64) {
+    if let Ok(c) = std::ffi::CString::new(p.to_string_lossy().as_bytes()) {
+        let ts = [libc::timespec { tv_sec: secs, tv_nsec: 0 }, libc::timespec { tv_sec: secs, tv_nsec: 0 }];
+        unsafe {
+            libc::utimensat(libc::AT_FDCWD, c.as_ptr(), ts.as_ptr(), 0);
+        }
     }
 }
 
@@ -272,8 +295,25 @@ pub fn observe_inproc(p: &Program, w: &World, scratch: &Path, fakebin: &Path) ->
         f
     };
     let root2 = root.clone();
+    let pre_build = w.pre_build;
+    let tree2 = tree.clone();
+    let order2 = w.order.clone();
+    let entry_rel = p.entry.clone();
     let r = par::instance(w.hash_seed, Some(w.clock_origin_s as i128 * 1_000_000_000), move || {
         let mut o: Obs = BTreeMap::new();
+        if pre_build > 0 {
+            // an earlier build of a *different* program into the same output directory (same entry file name)
+            let decoy = "def leftover_from_previous_build() -> int:\n    return 12345\n\ndef main() -> None:\n    println(\"decoy program\")\n";
+            let _ = std::fs::write(root2.join("proj").join(&entry_rel), decoy);
+            let _ = incan::cli::commands::build_file(&entry, Some(&"out".to_string()));
+            tree2.materialise(&root2.join("proj"), Some(&order2));
+            if pre_build == 2 {
+                // the sources were last touched long before that build
+                for (rel, _) in &tree2.nodes {
+                    set_mtime(&root2.join("proj").join(rel), 1_000_000_000);
+                }
+            }
+        }
         o.insert("canary".into(), simcore::interpose::canary_order());
         o.insert("check".into(), cli_result(incan::cli::commands::check_file(&entry)));
         o.insert("build".into(), cli_result(incan::cli::commands::build_file(&entry, Some(&"out".to_string()))));
@@ -475,7 +515,12 @@ fn run_case(p: &Program, worlds: &[World], scratch: &Path, fakebin: &Path, subpr
     let canaries_differ = subproc || canaries.len() > 1;
     let mut mismatch = None;
     for k in 1..obs.len() {
-        if let Some((key, a, b)) = first_diff(&obs[0], &obs[k]) {
+        let mut other = obs[k].clone();
+        if worlds[k].pre_build > 0 {
+            // files the earlier build left behind and this build does not generate are not output of this compilation
+            other.retain(|key, _| !key.starts_with("out:") || obs[0].contains_key(key));
+        }
+        if let Some((key, a, b)) = first_diff(&obs[0], &other) {
             mismatch = Some((k, key, a, b));
             break;
         }
@@ -486,7 +531,7 @@ fn run_case(p: &Program, worlds: &[World], scratch: &Path, fakebin: &Path, subpr
 
 /// Reduce the difference between the two worlds to one dimension, if one dimension alone reproduces the mismatch.
 fn isolate_dimension(p: &Program, a: &World, b: &World, scratch: &Path, fakebin: &Path, subproc: bool, key: &str) -> (String, World) {
-    let dims = ["hash", "env", "loc", "clock", "readdir"];
+    let dims = ["hash", "env", "loc", "clock", "readdir", "previous-build"];
     for d in dims {
         let mut c = a.clone();
         match d {
@@ -494,6 +539,7 @@ fn isolate_dimension(p: &Program, a: &World, b: &World, scratch: &Path, fakebin:
             "env" => c.env = b.env.clone(),
             "loc" => c.loc = format!("{}-alt", b.loc),
             "clock" => c.clock_origin_s = b.clock_origin_s,
+            "previous-build" => c.pre_build = b.pre_build,
             _ => c.order = b.order.clone(),
         }
         // `a` and `c` must not share a directory
@@ -666,6 +712,8 @@ fn worker(args: &[String], spec: par::WorkerSpec) {
         *counters.entry("world_executions".into()).or_insert(0) += worlds.len() as u64;
         *counters.entry("cases_with_differing_hash_canary".into()).or_insert(0) += r.canaries_differ as u64;
         *counters.entry("cases_with_differing_readdir_order".into()).or_insert(0) += (r.readdir_differs && p.files.len() > 1) as u64;
+        *counters.entry("worlds_with_leftover_output_dir".into()).or_insert(0) += worlds.iter().filter(|w| w.pre_build > 0 && !subproc).count() as u64;
+        *counters.entry("worlds_with_sources_older_than_leftovers".into()).or_insert(0) += worlds.iter().filter(|w| w.pre_build == 2 && !subproc).count() as u64;
         for t in &p.targets {
             *counters.entry(format!("target_{t}")).or_insert(0) += 1;
         }
@@ -826,6 +874,8 @@ pub fn main(args: &[String]) {
         "nondeterminism_kinds_injected": {
             "hash_key_stream_differs (measured by canary)": counters.get("cases_with_differing_hash_canary"),
             "readdir_order_differs (multi-file trees)": counters.get("cases_with_differing_readdir_order"),
+            "output dir holds an earlier build of another program (worlds)": counters.get("worlds_with_leftover_output_dir"),
+            "sources older than the leftovers (worlds)": counters.get("worlds_with_sources_older_than_leftovers"),
             "environment/cwd/clock differ": total,
         },
         "cases": counters.iter().filter(|(k, _)| k.starts_with("cases_") || k.starts_with("kind_") || k.starts_with("target_")).map(|(k, v)| (k.clone(), json!(v))).collect::<BTreeMap<_, _>>(),
